@@ -28,6 +28,8 @@
      k="disp"     the event of timer t was dispatched to the application
      k="idle"     the idle wait: a = requested timeout (units, rounded up;
                   Untimed for the fallback generator's wait(10000)), b = granted
+     k="stall"    the loop was run with full-length waits for a iterations and
+                  never came to rest (never asked for an untimed wait)
      k="end"      end of the run: a = 1 iff t is still in the component tree
 
    What the property requires of a timer is kept as an interval of admissible
@@ -38,8 +40,6 @@
    part is discarded, lo = hi = D rounded down to a whole second (the timer
    must neither fire before that second nor be left waiting for the
    microseconds of D).
-     k="stall"    the loop was run with full-length waits for a iterations and
-                  never came to rest (never asked for an untimed wait)
 
    "until it is unregistered, after which it never fires again": the timer is
    unregistered when unregister() is called on it (the documented first stage
